@@ -135,6 +135,8 @@ class Connection(object):
 
         self.networking_thread = None
         self.new_networking_thread = None
+        self.socket = None
+        self.file_object = None
         self.packet_listeners = []
         self.early_packet_listeners = []
         self.outgoing_packet_listeners = []
@@ -445,8 +447,15 @@ class Connection(object):
                    1 if ai[0] == socket.AF_INET6 else 2
         ai_faml, ai_type, ai_prot, _ai_cnam, ai_addr = min(info, key=key)
 
-        self.socket = socket.socket(ai_faml, ai_type, ai_prot)
-        self.socket.connect(ai_addr)
+        # Only keep the socket once it is connected, so that a failed
+        # attempt leaves nothing behind for 'disconnect' to trip over.
+        new_socket = socket.socket(ai_faml, ai_type, ai_prot)
+        try:
+            new_socket.connect(ai_addr)
+        except Exception:
+            new_socket.close()
+            raise
+        self.socket = new_socket
         self.file_object = self.socket.makefile("rb", 0)
         self.options.compression_enabled = False
         self.options.compression_threshold = -1
